@@ -249,7 +249,9 @@ Inductive case :=
 | CWireNtn (w : bytes) (back : option (N * N * bytes))
 (* what the real client's RollForward callback received for a wire message:
    ntn = true: block type + header bytes; false: block type + block bytes *)
-| CClient (ntn : bool) (w : bytes) (back : option (N * bytes)).
+| CClient (ntn : bool) (w : bytes) (back : option (N * bytes))
+(* NtN, block type only (the header bytes were compared by the harness) *)
+| CClientType (w : bytes) (t : option N).
 
 Definition ntc_view (r : option (N * bytes * item)) : option (N * bytes) :=
   match r with Some (t, b, _) => Some (t, b) | None => None end.
@@ -278,4 +280,6 @@ Definition check_case (header_to_block : list (N * N)) (c : case) : bool :=
   | CClient true w back =>
       opt_eqb nb_eqb (match client_ntn header_to_block w with Some (t, h, _) => Some (t, h) | None => None end) back
   | CClient false w back => opt_eqb nb_eqb (ntc_view (unwrap_ntc w)) back
+  | CClientType w t =>
+      opt_eqb N.eqb (match client_ntn header_to_block w with Some (t', _, _) => Some t' | None => None end) t
   end.
